@@ -328,6 +328,19 @@ func c18Window(family int, emit func(c18Case)) {
 				emit(c18Case{filter: "floatformat", in: x, param: d, want: want})
 			}
 		}
+		// a NEGATIVE argument shows decimals only if there are any: whole numbers print as integers however large the count,
+		// fractional ones are refused beyond the limit of 1000 decimals (and printed up to it)
+		for _, whole := range []any{34.0, -2.0, 0.0, 7, int64(-12), 1e6} {
+			w := pongo2.AsValue(whole).Integer()
+			for _, d := range []any{-1000, -1001, -5000, -1 << 40, "-1001", "-99999"} {
+				emit(c18Case{filter: "floatformat", in: whole, param: d, want: strconv.Itoa(w)})
+			}
+		}
+		for _, d := range []any{-1001, 1001, -5000, "-1001", 99999} {
+			emit(c18Case{filter: "floatformat", in: 2.5, param: d, errOK: true})
+		}
+		emit(c18Case{filter: "floatformat", in: 2.5, param: 1000, want: "2.5" + strings.Repeat("0", 999)})
+		emit(c18Case{filter: "floatformat", in: 2.5, param: -1000, want: "2.5" + strings.Repeat("0", 999)})
 	case 4: // yesno default default_if_none date
 		type tv struct {
 			v     any
@@ -461,6 +474,46 @@ func c18Check(c *C, k c18Case, viaTemplate bool) bool {
 		c.Fail("routes-disagree", d)
 		return false
 	}
+	// a pointer to a number, string or bool is the value it points to - as filter input and as filter argument
+	if pin, ok1 := c18Ptr(k.in); ok1 || k.param != nil {
+		if k.filter == "stringformat" {
+			ok1 = false // hands its input to fmt.Sprintf as it is: a pointer is formatted as a pointer by Go's verbs (not judged)
+		}
+		pparam, ok2 := c18Ptr(k.param)
+		if ok1 || ok2 {
+			if !ok1 {
+				pin = k.in
+			}
+			var pp *pongo2.Value
+			if k.param != nil {
+				if ok2 {
+					pp = pongo2.AsValue(pparam)
+				} else {
+					pp = param
+				}
+			}
+			pv, perr := pongo2.ApplyFilter(k.filter, pongo2.AsValue(pin), pp)
+			c.Eval(1)
+			pgot := ""
+			if perr == nil {
+				pgot = pv.String()
+				if k.seq {
+					pgot = fmt.Sprint(pv.Interface())
+				}
+			}
+			if perr != nil || pgot != got {
+				d := desc()
+				d["route"] = fmt.Sprintf("ApplyFilter with input of type %T and argument of type %T", pin, pparam)
+				d["output"] = q(pgot)
+				d["output_with_plain_values"] = q(got)
+				if perr != nil {
+					d["error"] = perr.Error()
+				}
+				c.Fail("routes-disagree", d)
+				return false
+			}
+		}
+	}
 	if viaTemplate && k.param != nil && !k.seq {
 		// a literal input with an argument taken from the context: the compiled template is first executed with ANOTHER
 		// argument value, then with the real one
@@ -565,6 +618,25 @@ func c18Check(c *C, k c18Case, viaTemplate bool) bool {
 		}
 	}
 	return true
+}
+
+// c18Ptr returns a pointer to a copy of a scalar value.
+func c18Ptr(x any) (any, bool) {
+	switch t := x.(type) {
+	case int:
+		return &t, true
+	case int64:
+		return &t, true
+	case uint8:
+		return &t, true
+	case float64:
+		return &t, true
+	case string:
+		return &t, true
+	case bool:
+		return &t, true
+	}
+	return nil, false
 }
 
 func c18Plan(tier string) (random int) {
